@@ -126,6 +126,15 @@ class Model:
                         pp[0] == 'f' and len(pp) > 2 and pp[2] in ('alloc::boxed::Box', 'core::ptr::Unique') for pp in x[2]))
                     if boxy and not from_q:
                         return None
+                    il = self.qf.get('indirect_lists')
+                    from_il = il and derives_from(ptr, lambda x: x[0] == 'loc' and any(
+                        pp[0] == 'f' and pp[1] == il and len(pp) > 2 and pp[2] == self.queue_adt for pp in x[2]))
+                    if from_il and not from_q:
+                        fld = None
+                        for p in loc[2]:
+                            if p[0] == 'f' and len(p) > 2 and p[2] == d:
+                                fld = self.desc_fields.get(p[1])
+                        return 'itable' + ('.' + fld if fld else '')
                     fld = None
                     for p in loc[2]:
                         if p[0] == 'f' and len(p) > 2 and p[2] == d:
